@@ -424,6 +424,13 @@ class World:
 # ---------------------------------------------------------------------------------------
 class CacheEngineBase(Engine):
     watchdog_s = 600
+
+    def scenario(self, tier, idx):
+        sc = {"focus": self.focus} if self.focus else {}
+        every = 100 if tier == "quick" else 400
+        if idx % every == every - 1:
+            sc["fidelity"] = 1 + (idx // every) % 2        # 1: real process without bytecode caching, 2: with
+        return sc
     shrink_budget = 300
     real_components = ["bisturi.codegen (snapshot of /repo working tree) and everything it calls",
                        "CPython's SourceFileLoader.get_code: .pyc validation by (mtime seconds, size), compilation, cache_from_source",
@@ -536,6 +543,81 @@ class CacheEngineBase(Engine):
                 SEAM.inside = False
         world.run_alone(proc, observing)
         return found[0]
+
+    # ---- fidelity: the process stub against a real python process -------------------------
+    def fidelity_check(self, world, bytecode, out):
+        """copy the directory as it is now twice (mtimes kept); let a fresh *simulated* process define defs.py on
+        one copy and a *real* python process on the other; both must report the same outcome per class
+        (definition raised?, behaviour digest, code digests) and leave the same generated sources behind"""
+        import hashlib
+        import json
+        import subprocess
+
+        def h(x):
+            return hashlib.sha256(repr(x).encode()).hexdigest()[:16]
+        saved = SEAM.save()
+        clock = SEAM.clock
+        try:
+            copies = []
+            for tag in ("fs", "fr"):
+                dst = os.path.join(self.wdir, "p-" + tag)
+                shutil.rmtree(dst, ignore_errors=True)
+                shutil.copytree(world.root, dst, copy_function=shutil.copy2)
+                copies.append(dst)
+            simdir, realdir = copies
+            # simulated
+            from .chooser import Chooser
+            o2 = Outcome()
+            w2 = World(self, Chooser(replay=[]), o2, simdir, concurrent=False)
+            w2.clock_faults = False
+            SEAM.clock = clock + 5.0          # a later moment, as for the real process
+            lp = w2.spawn("fid", bytecode=bytecode)
+            w2.run_alone(lp, lambda p: w2.define_run(p, "defs"))
+            pred = {"define_error": None, "classes": []}
+            if lp.define_errors:
+                pred["define_error"] = lp.define_errors[0].split(":")[0]
+
+            def prog(p):
+                PE = sys.modules["bisturi.packet"].PacketError
+                Packet = sys.modules["bisturi.packet"].Packet
+                SEAM.inside = True
+                try:
+                    for (_, _, i, cls) in p.classes:
+                        pred["classes"].append([h(behave(cls, PE)), h(code_sig(cls.pack_impl, Packet.pack_impl)),
+                                                h(code_sig(cls.unpack_impl, Packet.unpack_impl))])
+                finally:
+                    SEAM.inside = False
+            w2.run_alone(lp, prog)
+        finally:
+            SEAM.restore(saved)
+        # real
+        env = dict(os.environ, PYTHONHASHSEED="0")
+        env.pop("PYTHONDONTWRITEBYTECODE", None)
+        r = subprocess.run([sys.executable, os.path.join(os.path.dirname(os.path.dirname(os.path.abspath(__file__))), "tools", "realproc.py"),
+                            self.tree, realdir, "defs", "1" if bytecode else "0"], capture_output=True, text=True, env=env, timeout=120)
+        line = [l for l in r.stdout.splitlines() if l.startswith("REALPROC ")]
+        if not line:
+            raise RuntimeError("fidelity: the real process failed: %s" % (r.stderr[-600:],))
+        real = json.loads(line[-1][9:])
+        same_files = self._sources_of(simdir) == self._sources_of(realdir)
+        out.stats["fidelity-runs"] += 1
+        if pred != real or not same_files:
+            out.stats["fidelity-mismatch"] += 1
+            out.events.append("FIDELITY MISMATCH simulated=%r real=%r same_sources=%s" % (pred, real, same_files))
+            return False
+        return True
+
+    def _sources_of(self, root):
+        res = []
+        base = os.path.join(root, "__pkts__")
+        try:
+            for fn in sorted(REAL["listdir"](base)):
+                if fn.endswith(".py"):
+                    with REAL_IO_OPEN(os.path.join(base, fn), "rb") as f:
+                        res.append((fn, f.read()))
+        except OSError:
+            pass
+        return res
 
     def twin_cached(self, modname, src):
         return self.twins[(modname, src)]
@@ -697,6 +779,10 @@ class CacheSeqEngine(CacheEngineBase):
                 ev("JANITOR %s" % desc)
                 history.append(("JANITOR", desc))
             out.state_sigs += (digest(_pkts_listing(root)),)
+        if violation is None and scenario.get("fidelity"):
+            if not self.fidelity_check(world, bool(scenario["fidelity"] - 1), out):
+                raise RuntimeError("fidelity cross-check failed: the simulated process and a real python process disagree on the "
+                                   "same directory state:\n" + out.events[-1])
         if violation:
             out.violation = {"oracle": violation[0], "actor": violation[1], "detail": violation[2]}
             ev("VIOLATION %s: %s" % (violation[0], violation[2]))
@@ -945,6 +1031,10 @@ class CacheConcEngine(CacheEngineBase):
                 out.state_sigs += (digest(after),)
                 if violation:
                     break
+        if violation is None and scenario.get("fidelity"):
+            if not self.fidelity_check(world, bool(scenario["fidelity"] - 1), out):
+                raise RuntimeError("fidelity cross-check failed: the simulated process and a real python process disagree on the "
+                                   "same directory state:\n" + out.events[-1])
         if violation:
             out.violation = {"oracle": violation[0], "actor": violation[1], "detail": violation[2]}
             ev("VIOLATION %s: %s" % (violation[0], violation[2]))
